@@ -352,6 +352,49 @@ func runC04(c *core.Ctx) {
 	// the samlsp middleware: the outstanding IDs are those of the tracking cookies the browser presents.
 	// nTracked flows are started through the real middleware; every InResponseTo choice (per started flow, foreign, empty, absent, prefix)
 	// at the Response and at the confirmation x presented-cookie subset x AllowIDPInitiated is POSTed to /saml/acs.
+	// confirmations that are not bearer confirmations answer the request like any other ("every subject confirmation of the accepted assertion")
+	c.Group("non-bearer-confirmations")
+	for _, method := range []string{"urn:oasis:names:tc:SAML:2.0:cm:holder-of-key", "urn:oasis:names:tc:SAML:2.0:cm:sender-vouches", "", "URN:OASIS:NAMES:TC:SAML:2.0:CM:BEARER", "urn:example:unknown-method"} {
+		for _, ci := range irts {
+			for _, where := range []string{"only", "after-a-correct-bearer", "before-a-correct-bearer"} {
+				for _, lay := range layouts {
+					method, ci, where, lay := method, ci, where, lay
+					key := fmt.Sprintf("nonbearer/method=%q/irt=%s/%s/lay=%s", method, ci.name, where, lay)
+					c.Case(key, func(t *core.T) {
+						t.NonTrivial()
+						resp := samlgen.DefaultResponse()
+						a := samlgen.DefaultAssertion()
+						good := a.Confirmations[0]
+						odd := a.Confirmations[0]
+						odd.Method, odd.InResponseTo = method, ci.val
+						switch where {
+						case "only":
+							a.Confirmations = []samlgen.Confirmation{odd}
+						case "after-a-correct-bearer":
+							a.Confirmations = []samlgen.Confirmation{good, odd}
+						default:
+							a.Confirmations = []samlgen.Confirmation{odd, good}
+						}
+						doc := samlgen.Doc(harness.BuildResponse(resp, []*samlgen.Assertion{a}, lay, idp1(), spKey()))
+						sp := getSP(false, "nil")
+						got, err := parseXML(sp, doc, []string{samlgen.ReqID})
+						t.Impl(1)
+						checkAPIContract(t, got, err)
+						v := core.DontCare // all confirmations answer the request: accepting non-bearer confirmations is not demanded
+						if !inSet(ci.val, []string{samlgen.ReqID}) {
+							v = core.MustReject
+						}
+						t.Outcome(harness.ErrClass(err))
+						judge(t, v, err, "C04/non-bearer-confirmation", key)
+						if t.Failed() {
+							t.Input("response_xml", string(doc))
+						}
+					})
+				}
+			}
+		}
+	}
+
 	c04ManyPending(c)
 	c.Group("middleware-acs")
 	for _, idpInit := range []bool{false, true} {
